@@ -202,7 +202,7 @@ PROPS["C13"] = dict(
                 "(also one-rule-per-line) annotations, quoted rule names, trailing comma, blank lines, rule order. Relation between runs: same Check verdict, same AST modulo comments (rule order normalised when "
                 "permuted), same verdict on a shared batch of documents; and for documents, the same verdict under re-spelling. Sampled."),
     level_note="trusted: that each printer style knob is meaning-preserving (they were validated against the pinned tree: all combinations are accepted identically there); duplicate-key documents are not reordered",
-    rule=("schema pairs: model x 1-5 rewrites drawn from 15 kinds (incl. several properties per line and one-line containers, note-only annotations on the line after their value, bare // annotations, inline and multi-line annotations side by side, notes on enum items); documents: the example, instances and structural mutants (6-7 per schema). non-trivial = >=2 rewrite kinds and the schema has an annotation; "
+    rule=("schema pairs: model x 1-5 rewrites drawn from 16 kinds (incl. annotation notes, several properties per line and one-line containers, note-only annotations on the line after their value, bare // annotations, inline and multi-line annotations side by side, notes on enum items); documents: the example, instances and structural mutants (6-7 per schema). non-trivial = >=2 rewrite kinds and the schema has an annotation; "
           "document pairs: blanks / property order / per-rune escape spelling (raw, \\uXXXX both cases, short escapes, surrogate pairs); non-trivial = some token changed. distinct by (canonical, respelled)"),
     assumptions=["printer styles are meaning-preserving by the language definition (new-line conventions, comments and annotation forms are listed in the statement)"],
     jobs=[job("schema", "^TestSchemaRespelling$", (4, 16), (4000, 15000), (600, 3000)),
